@@ -74,6 +74,11 @@ func (g *GRU) Apply(inputs []tensor.Tensor) ([]tensor.Tensor, error) {
 		return nil, ops.ErrUnsupportedInput("sequence lens", g)
 	}
 
+	// One activation function is needed for each of the 2 activation slots of the operator.
+	if len(g.activations) != 2 {
+		return nil, ops.ErrInvalidAttribute(ops.ActivationsAttr, g)
+	}
+
 	X := inputs[0]
 	seqLength := X.Shape()[0]
 	batchSize := X.Shape()[1]
